@@ -50,6 +50,76 @@ def covering_cname(zone, name):
     return False
 
 
+def clauses(zones, q, res, nlog=None):
+    """C01's sentences on one question and its reply (parsed by localgen).  nlog = None: local stream; otherwise a
+    network-mode reply, nlog = number of upstream exchanges logged for the question.  -> None | (class, text)"""
+    net = nlog is not None
+    n, qt = q["name"], q["qtype"]
+    qs = "%s type %d" % (g.show_name(n), qt)
+    if res["kind"] not in ("A", "X", "N", "E"):
+        return None
+    rrs = res.get("rrs", [])
+    # provenance: every RR at a name an authoritative zone owns is a record of that zone
+    for r in rrs:
+        zo = g.owned_auth(zones, r["name"])
+        if zo is not None and not g.zone_may_produce(zo, r):
+            return ("foreign-record-for-owned-name",
+                    "question %s: the reply holds %s type %d ttl %d %s, which is not a record of the authoritative zone %s that owns the name"
+                    % (qs, g.show_name(r["name"]), r["type"], r["ttl"], r["data"], g.show_name(zo["apex"])))
+    # (i) owned names are answered authoritatively, with the owning zone's SOA
+    z = g.owned_auth(zones, n)
+    if z is not None and (qt in (CNAME, ANY) or not covering_cname(z, n)):
+        if res["kind"] not in ("A", "X"):
+            return ("owned-not-authoritative",
+                    "question %s: the most specific zone %s is authoritative and owns the name, but the reply is %s"
+                    % (qs, g.show_name(z["apex"]), res["kind"] if res["kind"] != "E" else res["err"]))
+        if res["soa"] != z["soa_rr"]:
+            return ("owned-wrong-soa", "question %s: reply carries an SOA that is not zone %s's" % (qs, g.show_name(z["apex"])))
+        if any(r["name"] != n for r in rrs):
+            return ("owned-foreign-owner", "question %s: authoritative reply holds a record of another owner" % qs)
+        if net and nlog:
+            return ("owned-with-upstream-contact", "question %s: zone %s owns the name, yet %d upstream exchange(s) were made"
+                    % (qs, g.show_name(z["apex"]), nlog))
+    # (ii) a non-authoritative zone holding records of the asked name (and type) overrides
+    zn = g.zone_for(zones, n)
+    if zn is not None and zn["soa_rr"] is None and not g.beneath_cut(zn, n) and not g.has_wild_ns(zn):
+        if qt == ANY:
+            here = g.recs_at(zn, n)
+            if here and not (net and res["kind"] == "E"):
+                # (network modes: an ANY question goes upstream for the other types; when upstream cannot be
+                # reached the resolution fails as a whole -- not a substitution, not judged here)
+                if res["kind"] != "N":
+                    return ("override-lost", "question %s: the non-authoritative zone holds records of the name but the reply is %s" % (qs, res["kind"]))
+                for t in sorted({r[0] for r in here}):
+                    want = [rr_of(n, r) for r in here if r[0] == t]
+                    got = [r for r in rrs if r["name"] == n and r["type"] == t]
+                    if got != want:
+                        return ("override-mixed",
+                                "question %s: records of type %d at the name are %d in the reply but the zone holds %d -- cached or upstream records of a (name, type) the zone has were added or substituted"
+                                % (qs, t, len(got), len(want)))
+        elif qt not in (AXFR, MAILB, MAILA):
+            here = g.recs_at(zn, n, qt)
+            if here and (qt == CNAME or not g.recs_at(zn, n, CNAME)):
+                want = [rr_of(n, r) for r in here]
+                if res["kind"] != "N" or rrs != want or res["soa"] is not None:
+                    return ("override-not-exact",
+                            "question %s: the non-authoritative zone %s holds %d record(s) of that name and type; the reply is %s with %d record(s)"
+                            % (qs, g.show_name(zn["apex"]), len(want), res["kind"], len(rrs)))
+                if net and nlog:
+                    return ("override-with-upstream-contact",
+                            "question %s: the non-authoritative zone %s answers it, yet %d upstream exchange(s) were made"
+                            % (qs, g.show_name(zn["apex"]), nlog))
+    # (iii) a name error only on the word of an authoritative zone
+    if res["kind"] == "X":
+        if zn is None or zn["soa_rr"] is None:
+            return ("nxdomain-without-authority", "question %s: name error although the most specific zone is not authoritative" % qs)
+        if g.node_exists(zn, n):
+            return ("nxdomain-for-existing-name", "question %s: name error although zone %s has records at or beneath the name" % (qs, g.show_name(zn["apex"])))
+        if res["soa"] != zn["soa_rr"]:
+            return ("nxdomain-wrong-soa", "question %s: name error carries another zone's SOA" % qs)
+    return None
+
+
 def oracle(case, impl, model):
     try:
         zones, cache, questions = g.parse_case(case)
@@ -59,61 +129,56 @@ def oracle(case, impl, model):
     if outs is None or len(outs) != len(questions):
         return None
     for q, (res, loc) in zip(questions, outs):
-        n, qt = q["name"], q["qtype"]
-        qs = "%s type %d" % (g.show_name(n), qt)
-        if res["kind"] not in ("A", "X", "N", "E"):
-            continue
-        rrs = res.get("rrs", [])
-        # provenance: every RR at a name an authoritative zone owns is a record of that zone
-        for r in rrs:
-            zo = g.owned_auth(zones, r["name"])
-            if zo is not None and not g.zone_may_produce(zo, r):
-                return ("foreign-record-for-owned-name",
-                        "question %s: the reply holds %s type %d ttl %d %s, which is not a record of the authoritative zone %s that owns the name"
-                        % (qs, g.show_name(r["name"]), r["type"], r["ttl"], r["data"], g.show_name(zo["apex"])))
-        # (i) owned names are answered authoritatively, with the owning zone's SOA
-        z = g.owned_auth(zones, n)
-        if z is not None and (qt in (CNAME, ANY) or not covering_cname(z, n)):
-            if res["kind"] not in ("A", "X"):
-                return ("owned-not-authoritative",
-                        "question %s: the most specific zone %s is authoritative and owns the name, but the reply is %s"
-                        % (qs, g.show_name(z["apex"]), res["kind"] if res["kind"] != "E" else res["err"]))
-            if res["soa"] != z["soa_rr"]:
-                return ("owned-wrong-soa", "question %s: reply carries an SOA that is not zone %s's" % (qs, g.show_name(z["apex"])))
-            if any(r["name"] != n for r in rrs):
-                return ("owned-foreign-owner", "question %s: authoritative reply holds a record of another owner" % qs)
-        # (ii) a non-authoritative zone holding records of the asked name (and type) overrides
-        zn = g.zone_for(zones, n)
-        if zn is not None and zn["soa_rr"] is None and not g.beneath_cut(zn, n) and not g.has_wild_ns(zn):
-            if qt == ANY:
-                here = g.recs_at(zn, n)
-                if here:
-                    if res["kind"] != "N":
-                        return ("override-lost", "question %s: the non-authoritative zone holds records of the name but the reply is %s" % (qs, res["kind"]))
-                    for t in sorted({r[0] for r in here}):
-                        want = [rr_of(n, r) for r in here if r[0] == t]
-                        got = [r for r in rrs if r["name"] == n and r["type"] == t]
-                        if got != want:
-                            return ("override-mixed",
-                                    "question %s: records of type %d at the name are %d in the reply but the zone holds %d -- cached records of a (name, type) the zone has were added or substituted"
-                                    % (qs, t, len(got), len(want)))
-            elif qt not in (AXFR, MAILB, MAILA):
-                here = g.recs_at(zn, n, qt)
-                if here and (qt == CNAME or not g.recs_at(zn, n, CNAME)):
-                    want = [rr_of(n, r) for r in here]
-                    if res["kind"] != "N" or rrs != want or res["soa"] is not None:
-                        return ("override-not-exact",
-                                "question %s: the non-authoritative zone %s holds %d record(s) of that name and type; the reply is %s with %d record(s)"
-                                % (qs, g.show_name(zn["apex"]), len(want), res["kind"], len(rrs)))
-        # (iii) a name error only on the word of an authoritative zone
-        if res["kind"] == "X":
-            if zn is None or zn["soa_rr"] is None:
-                return ("nxdomain-without-authority", "question %s: name error although the most specific zone is not authoritative" % qs)
-            if g.node_exists(zn, n):
-                return ("nxdomain-for-existing-name", "question %s: name error although zone %s has records at or beneath the name" % (qs, g.show_name(zn["apex"])))
-            if res["soa"] != zn["soa_rr"]:
-                return ("nxdomain-wrong-soa", "question %s: name error carries another zone's SOA" % qs)
+        f = clauses(zones, q, res)
+        if f is not None:
+            return f
     return None
+
+
+# ---------------------------------------------------------------------------------------------
+# recursive and forwarding mode (resolver stream; cases from vlib/netgen.py)
+# ---------------------------------------------------------------------------------------------
+
+def net_oracle(case, impl):
+    """C01 on the implementation's output of one network-mode case: the clauses above on every reply, plus the
+    exchange log: no exchange asks about a name an authoritative local zone owns, and a question local data answers
+    has an empty log"""
+    from . import netgen, resolvergen as rg
+    if impl == "Panic":
+        return ("panic", "the resolver panicked")
+    try:
+        c = rg.Case(case)
+        parsed = rg.parse_result(impl)
+        if parsed is None:
+            return None
+        results, _ = parsed
+        zones, cache, questions = netgen.local_view(case)
+        if len(results) != len(questions):
+            return None
+        if not any(g.has_wild_ns(z) for z in zones.values()):
+            why = rg.c01_log_check(c, results)
+            if why:
+                return ("upstream-asked-about-owned-name", why)
+        for q, r in zip(questions, results):
+            if r.kind in ("Panic", "OutOfFuel"):
+                continue
+            f = clauses(zones, q, g.parse_resolved(r.raw), nlog=len(r.log))
+            if f is not None:
+                return f
+    except Exception:      # malformed output is a correspondence matter
+        return None
+    return None
+
+
+def net_nontrivial(case, model):
+    from . import resolvergen as rg
+    p = rg.parse_result(model)
+    return p is not None and any(r.kind in ("A", "X", "N") for r in p[0])
+
+
+def extra(ctx):
+    from . import netgen
+    return netgen.run(ctx, ID, net_oracle, net_nontrivial)
 
 
 def nontrivial(case, model):
